@@ -1,54 +1,104 @@
 //! C17: ascent::aggregators on explicit inputs.
-//! case: <name> <pn> <pd> <iterkind> v1 v2 ...
+//! case: <name>[@<type>] <pn> <pd> <iterkind> v1 v2 ...
+//!   type: the column type N the aggregator is instantiated with: i8 i16 i32 i64 u8 u16 u32 u64 (mean: only the types
+//!         with Into<f64>, i.e. at most 32 bits, and f32); without `@type`: mean on i32, everything else on i64
 //!   iterkind (count / not only): exact | filter | chain | flat
+//! Values are parsed INTO the column type (a value outside it is a harness error, not a result).
 use ascent::aggregators::*;
 
+/// a malformed case is an error of the tie, never a result: the driver stops (lib.ds_run then reports the missing lines)
+fn harness_error(msg: &str) -> ! {
+   eprintln!("ds_driver agg: harness error: {}", msg);
+   std::process::exit(3)
+}
 fn vals<T: std::str::FromStr>(toks: &[&str]) -> Vec<T> where T::Err: std::fmt::Debug {
-   toks.iter().map(|t| t.parse().unwrap()).collect()
+   toks.iter().map(|t| t.parse().unwrap_or_else(|e| harness_error(&format!("value {} does not parse into the column type: {:?}", t, e)))).collect()
 }
 fn show<T: std::fmt::Display>(it: impl Iterator<Item = T>) -> String {
    let v: Vec<String> = it.map(|x| x.to_string()).collect();
    format!("ok {}", v.join(" "))
 }
 
+/// min / max / sum / percentile at a concrete column type (a macro, not a generic function: the driver must keep
+/// compiling when an aggregator's trait bounds change, the way a user's concrete column does)
+macro_rules! ord_aggs { ($t:ty, $name:expr, $p:expr, $rest:expr) => {{
+   let v: Vec<$t> = vals($rest);
+   match $name {
+      "min" => show(min(v.iter().map(|x| (x,)))),
+      "max" => show(max(v.iter().map(|x| (x,)))),
+      "sum" => show(sum(v.iter().map(|x| (x,)))),
+      "percentile" => { let f = percentile($p); show(f(v.iter().map(|x| (x,)))) }
+      _ => harness_error("aggregator name"),
+   }
+}}}
+
+/// mean at a concrete column type; the f64 is printed in its shortest round-trip form (parsed back exactly)
+macro_rules! mean_at { ($t:ty, $rest:expr) => {{
+   let v: Vec<$t> = vals($rest);
+   let r: Vec<f64> = mean(v.iter().map(|x| (x,))).collect();
+   show(r.iter().map(|f| format!("{:?}", f)))
+}}}
+
+/// count / not over a column of type T under four iterator shapes (different size hints); the hint is reported
+/// so that the model is run with the hint the real iterator produced
+fn count_not<T>(name: &str, kind: &str, rest: &[&str]) -> String
+where T: std::str::FromStr + Clone, T::Err: std::fmt::Debug {
+   let v: Vec<T> = vals(rest);
+   macro_rules! go { ($it:expr) => {{
+      let it = $it; let (lo, hi) = it.size_hint();
+      let hint = format!("hint {} {}", lo, hi.map(|h| h.to_string()).unwrap_or("none".into()));
+      if name == "count" { format!("{} {}", show(count(it)), hint) }
+      else { format!("{} {}", show(not(it).map(|_| 0)), hint) }
+   }}}
+   match kind {
+      "exact" => go!(v.iter().map(|_| ())),
+      // a filter that keeps every row: the hint becomes (0, Some(len)) whatever the values are
+      "filter" => go!(v.iter().filter(|_| std::hint::black_box(true)).map(|_| ())),
+      "chain" => { let (a, b) = v.split_at(v.len() / 2); go!(a.iter().chain(b.iter()).map(|_| ())) }
+      "flat" => { let vv: Vec<Vec<T>> = v.chunks(2).map(|c| c.to_vec()).collect(); go!(vv.iter().flat_map(|c| c.iter()).map(|_| ())) }
+      _ => harness_error("iterator kind"),
+   }
+}
+
 pub fn run(toks: &[&str]) -> String {
-   let name = toks[0];
+   let (name, ty) = match toks[0].split_once('@') { Some((n, t)) => (n, t), None => (toks[0], "") };
    let pn: f64 = toks[1].parse().unwrap();
    let pd: f64 = toks[2].parse().unwrap();
    let kind = toks[3];
    let rest = &toks[4..];
    match name {
-      "min" => { let v: Vec<i64> = vals(rest); show(min(v.iter().map(|x| (x,)))) }
-      "max" => { let v: Vec<i64> = vals(rest); show(max(v.iter().map(|x| (x,)))) }
-      "sum" => { let v: Vec<i64> = vals(rest); show(sum(v.iter().map(|x| (x,)))) }
-      "mean" => {
-         let v: Vec<i32> = vals(rest);
-         let r: Vec<f64> = mean(v.iter().map(|x| (x,))).collect();
-         show(r.iter().map(|f| format!("{:?}", f)))
-      }
-      "percentile" => {
-         let v: Vec<i64> = vals(rest);
-         let f = percentile(pn / pd);
-         show(f(v.iter().map(|x| (x,))))
-      }
-      "count" | "not" => {
-         let v: Vec<i64> = vals(rest);
-         // different iterator shapes give different size hints; report the hint
-         // so that the model is run with the hint the real iterator produced
-         macro_rules! go { ($it:expr) => {{
-            let it = $it; let (lo, hi) = it.size_hint();
-            let hint = format!("hint {} {}", lo, hi.map(|h| h.to_string()).unwrap_or("none".into()));
-            if name == "count" { format!("{} {}", show(count(it)), hint) }
-            else { format!("{} {}", show(not(it).map(|_| 0)), hint) }
-         }}}
-         match kind {
-            "exact" => go!(v.iter().map(|_| ())),
-            "filter" => go!(v.iter().filter(|x| **x != i64::MIN).map(|_| ())),
-            "chain" => { let (a, b) = v.split_at(v.len() / 2); go!(a.iter().chain(b.iter()).map(|_| ())) }
-            "flat" => { let vv: Vec<Vec<i64>> = v.chunks(2).map(|c| c.to_vec()).collect(); go!(vv.iter().flat_map(|c| c.iter()).map(|_| ())) }
-            _ => panic!("kind"),
-         }
-      }
-      _ => panic!("agg name"),
+      "min" | "max" | "sum" | "percentile" => match ty {
+         "i8" => ord_aggs!(i8, name, pn / pd, rest),
+         "i16" => ord_aggs!(i16, name, pn / pd, rest),
+         "i32" => ord_aggs!(i32, name, pn / pd, rest),
+         "" | "i64" => ord_aggs!(i64, name, pn / pd, rest),
+         "u8" => ord_aggs!(u8, name, pn / pd, rest),
+         "u16" => ord_aggs!(u16, name, pn / pd, rest),
+         "u32" => ord_aggs!(u32, name, pn / pd, rest),
+         "u64" => ord_aggs!(u64, name, pn / pd, rest),
+         _ => harness_error("column type"),
+      },
+      "mean" => match ty {
+         "i8" => mean_at!(i8, rest),
+         "i16" => mean_at!(i16, rest),
+         "" | "i32" => mean_at!(i32, rest),
+         "u8" => mean_at!(u8, rest),
+         "u16" => mean_at!(u16, rest),
+         "u32" => mean_at!(u32, rest),
+         "f32" => mean_at!(f32, rest),
+         _ => harness_error("column type"),
+      },
+      "count" | "not" => match ty {
+         "i8" => count_not::<i8>(name, kind, rest),
+         "i16" => count_not::<i16>(name, kind, rest),
+         "i32" => count_not::<i32>(name, kind, rest),
+         "" | "i64" => count_not::<i64>(name, kind, rest),
+         "u8" => count_not::<u8>(name, kind, rest),
+         "u16" => count_not::<u16>(name, kind, rest),
+         "u32" => count_not::<u32>(name, kind, rest),
+         "u64" => count_not::<u64>(name, kind, rest),
+         _ => harness_error("column type"),
+      },
+      _ => harness_error("aggregator name"),
    }
 }
